@@ -173,7 +173,7 @@ def in_effective_selection(k, select, graph, UNSET):
     return (
         ((k in graph.outputs) if graph.selected is None else (k in graph.selected))
         if select is UNSET
-        else ((k in graph.outputs) if select == "**" else ((k == select) if isinstance(select, str) else (k in select)))
+        else ((k in graph.outputs) if select == "**" else ((k == select) if isinstance(select, str) else any(x == k for x in select)))
     )
 
 
